@@ -318,7 +318,8 @@ class World:
     def do_s6(self, op):
         """Remove each ignore comment that the original tree did not have (own-line: delete the
         line; trailing: strip the comment), probe, restore."""
-        original = self.spec["files"]
+        original = dict(self.spec["files"])
+        original.update(self.spec.get("links") or {})
         results = []
         self.s6_done = 0
         self.s6_seen = 0
